@@ -196,7 +196,8 @@ Pinned == \/ TReset
 TNext == (~Urgent /\ Pinned) \/ Silent
 TSpec == TInit /\ [][TNext]_tvars
 
-Hwm == HwmConstraint(l)
+\* once some path has consumed the whole trace it is explained: stop TLC (no error trace)
+Hwm == HwmConstraint(l) /\ (l > Len(Trace) => TLCSet("exit", TRUE))
 Accepted == HwmAccepted
 \* Checked as an "invariant": its violation means the whole trace was consumed
 \* on some path, so TLC can stop at the first complete explanation.
